@@ -1,7 +1,7 @@
 (* C18Theorems.v — the property theorems of C18 and nothing else.  Each is closed by
    `exact <lemma>` and followed by Print Assumptions (audited by ./check on every run). *)
 From V.lib Require Import Base.
-From V.c18 Require Import C18Model C18BitsProofs C18AscProofs.
+From V.c18 Require Import C18Model C18BitsProofs C18AscProofs C18AdtsProofs.
 
 (* DecodeAudioSpecificConfig inverts Encode on the whole supported domain: object types 2/5/29,
    all 16 channel configurations, every sampling / extension frequency in 0 .. 2^24-1 (the 13 table
@@ -33,3 +33,66 @@ Theorem C18_asc_table_enum :
     asc_roundtrip_ok (asc_of ot ch f e) = true.
 Proof. exact asc_table_enum. Qed.
 Print Assumptions C18_asc_table_enum.
+
+(* DecodeADTSHeader inverts ADTSHeader.Encode: every profile 1..4, all 16 frequency indices, all 8
+   channel configurations, every payload length 0..8184 (13-bit frame length incl. the 7 header
+   bytes), every 11-bit fullness value, whatever follows the header.  General proof (in particular
+   general in the length), no enumeration. *)
+Theorem C18_adts_roundtrip :
+  forall (h : adts) (rest : list N),
+    adts_canonical h = true -> decode_adts (encode_adts h ++ rest) = Ok (h, 0%Z).
+Proof. exact adts_roundtrip. Qed.
+Print Assumptions C18_adts_roundtrip.
+
+Example C18_adts_roundtrip_sat : adts_canonical (mkAdts 0 2 3 2 7 8184 2047) = true.
+Proof. reflexivity. Qed.
+
+(* with up to 187 junk bytes in front that contain no earlier sync word (junk may contain ff bytes, runs
+   of ff, and may end in ff: the sync2 re-use path), the decoder returns the header and reports the
+   junk length as the offset of the sync word.  Induction over the search iterations. *)
+Theorem C18_adts_sync_offset :
+  forall (junk : list N) (h : adts) (rest : list N),
+    (length junk <= 187)%nat -> bytes_ok junk = true -> no_sync_in junk = true ->
+    adts_canonical h = true ->
+    decode_adts (junk ++ encode_adts h ++ rest) = Ok (h, Z.of_nat (length junk)).
+Proof. exact adts_sync_offset. Qed.
+Print Assumptions C18_adts_sync_offset.
+
+Example C18_adts_sync_offset_sat :
+  let junk := [0; 255; 255; 255; 247; 71; 255; 254; 255] in
+  (length junk <= 187)%nat /\ bytes_ok junk = true /\ no_sync_in junk = true.
+Proof. cbv zeta. repeat split. cbn [length]. lia. Qed.
+
+(* NewADTSHeader yields a canonical header carrying the index of the requested table frequency *)
+Theorem C18_new_adts_canonical :
+  forall (f : Z) (ch pl : N) (h : adts),
+    new_adts f ch AAClc pl = Ok h -> ch < 8 -> pl <= 8184 ->
+    adts_canonical h = true /\ freq_of_index (h_sfi h) = Some f.
+Proof. exact new_adts_canonical. Qed.
+Print Assumptions C18_new_adts_canonical.
+
+(* complete enumerations inside Coq (vm_compute of forallb, lifted with forallb_forall; the bounds are
+   in the statements): the profile x index x channel grid, every payload length, every junk length *)
+Theorem C18_adts_grid_enum :
+  forall ot sfi ch pl bf : N,
+    1 <= ot <= 4 -> sfi < 16 -> ch < 8 -> In pl grid_plens -> In bf grid_bfs ->
+    adts_roundtrip_ok [] (mkAdts 0 ot sfi ch 7 pl bf) [] = true.
+Proof. exact adts_grid_enum. Qed.
+Print Assumptions C18_adts_grid_enum.
+
+Theorem C18_adts_length_enum :
+  forall pl : N, pl <= 8184 -> adts_roundtrip_ok [] (len_header pl) [] = true.
+Proof. exact adts_length_enum. Qed.
+Print Assumptions C18_adts_length_enum.
+
+Theorem C18_adts_junk_enum :
+  forall n : nat, (n <= 187)%nat ->
+    junk_ok (junk_zero n) = true /\ junk_ok (junk_ff n) = true /\ junk_ok (junk_zero_ff n) = true.
+Proof. exact adts_junk_enum. Qed.
+Print Assumptions C18_adts_junk_enum.
+
+(* the window is sharp: 188 zero bytes of junk are not searched through (outside the property's domain) *)
+Theorem C18_adts_junk_188_refused :
+  decode_adts (junk_zero 188 ++ encode_adts (len_header 371)) = Err.
+Proof. exact adts_junk_188_refused. Qed.
+Print Assumptions C18_adts_junk_188_refused.
